@@ -109,7 +109,9 @@ pub mod thread {
         if in_sim() { JoinHandle::Sim(shuttle::thread::spawn(f)) } else { JoinHandle::Std(std::thread::spawn(f)) }
     }
     pub fn sleep(d: std::time::Duration) {
-        if in_sim() { if super::clock::installed() { /* simulated time does not pass by itself */ } shuttle::thread::yield_now() } else { std::thread::sleep(d) }
+        // inside a simulation: a plain scheduling point (simulated time does not pass by itself); unlike yield_now it does not ask a
+        // PCT scheduler to lower the caller's priority
+        if in_sim() { shuttle::thread::sleep(d) } else { std::thread::sleep(d) }
     }
     pub fn yield_now() { if in_sim() { shuttle::thread::yield_now() } else { std::thread::yield_now() } }
 }
